@@ -74,6 +74,42 @@ NEEDS = {
     'C10-3': ('C10', 'layers in subprocesses and two selected layers whose dotted names differ only where one has a dot (app.layers.DB / app_layers.DB): unescaped resume-layer regex, a layer runs twice'),
     'C10-4': ('C10', '-j N with --progress and a later layer producing output before an earlier one: immediate collector bypasses the in-order display'),
     'C10-5': ('C10', 'two selected layers whose names differ only by leading zeros (Shard01 / Shard1) met in a different discovery order: natural sort key ties'),
+    'C04-3': ('C04', 'a test recording >=2 errors under one name (body + tearDown) in a layer subprocess: the child names it once while the header counts every result, the parent rejects the report'),
+    'C04-4': ('C04', 'a tearDown raising NotImplementedError with bases / later siblings in the same tear-down batch and a layer still to run: the remaining layers are never torn down'),
+    'C04-5': ('C04', 'a failing layer that is an object instance (no __qualname__), named with -v or in a subprocess report: AttributeError while reporting'),
+    'C07-3': ('C07', 'a lost subprocess while printing the diagnostics raises (ASCII-only console, non-ASCII child stderr, -v): the error is recorded after printing, so not at all'),
+    'C07-4': ('C07', 'a blank line on the child\'s fd 2 before the report plus >=1 failure: header index computed on the filtered list, names shift'),
+    'C07-5': ('C07', 'a report that announces more failures than tests (several failing subtests, --repeat): rejected by a plausibility check'),
+    'C11-3': ('C11', 'a test module using the process-wide random generator at import time: the shuffle draws from the global state seeded at configure time'),
+    'C11-4': ('C11', 'a fixed seed, --layer/-f deselecting the unit tests, >=2 unit tests and a layer whose dotted name sorts after the unit layer: deselected unit tests are dropped before the shuffle'),
+    'C11-5': ('C11', '--shuffle --shuffle-seed S -j N --list-tests: the coordinating process skips the shuffle, the listing is unshuffled'),
+    'C12-3': ('C12', 'a layer subprocess that writes to its stderr after the report: completeness check == instead of >=, valid report rejected'),
+    'C12-4': ('C12', '>=2 layers with tests sharing a base whose setUp raises, in one process: the second dependent layer is neither run nor counted; totals differ between modes'),
+    'C12-5': ('C12', 'a module that fails to import plus layers in subprocesses: every child adds the import failure to its report, the error total grows'),
+    'C13-3': ('C13', '--buffer, a test skipped in its body whose tearDown/cleanup writes output, followed by a failing test: the leftover text leaks into the next report'),
+    'C13-4': ('C13', '--buffer and a failing test whose last write has no newline: line-buffered capture stream, the tail is dropped'),
+    'C13-5': ('C13', '-D with --buffer and a test aborted by KeyboardInterrupt: stopTest skipped, streams stay replaced'),
+    'C14-3': ('C14', 'a symlink to a directory whose name is not an identifier / is ignored (my-fixtures, node_modules): followed although the name is excluded'),
+    'C14-4': ('C14', '--package-path DIR LABEL with a -m pattern referring to the label: the filter runs before the label is prepended'),
+    'C14-5': ('C14', 'two -s options where the second directory name extends the first (shop, shop_admin): prefix test without separator, second package not searched'),
+    'C15-3': ('C15', 'X.py, X.pyc and a file X.py.orig in one directory: itertools.groupby on stems over a listing sorted by full name splits the group, X.pyc deleted'),
+    'C15-4': ('C15', 'an orphan appearing after the main scan and a layer run in a subprocess: children skip the cleanup'),
+    'C15-5': ('C15', 'two sibling test paths where the later name begins with the earlier one (lib, lib_extra): the later one is never scanned'),
+    'C16-3': ('C16', '-x --repeat N and the failing test is the last test of its layer: the loop ends by exhaustion, the flag stays False, further iterations run'),
+    'C16-4': ('C16', '-x, sequential, >=2 layers, a module that fails to import and the first problem is an error: import problems raise the stop threshold'),
+    'C16-5': ('C16', '-x --repeat N and a test failing in an iteration before the last: results only kept for the last iteration, verdict passed'),
+    'C17-3': ('C17', '--xml with >=2 layers in subprocesses one starting after another finished: stale-report clean-up runs in every child and deletes earlier reports'),
+    'C17-4': ('C17', '--xml with --buffer, a failing test and a control character printed before the failure: system-out text not escaped'),
+    'C17-5': ('C17', 'failing subtests in >=2 different test classes in one process: class-name cache keyed before the subtest redirect'),
+    'C18-3': ('C18', 'interpreter started with -W and something in the run changes the warnings filters: catch_warnings skipped'),
+    'C18-4': ('C18', '--coverage plus a test that sets and clears its own trace function: stop() leaves it installed'),
+    'C18-5': ('C18', '--profile cProfile with the default relative directory plus a test leaving the cwd changed: the failing stats step skips every other teardown'),
+    'C19-3': ('C19', 'a raw _thread thread already running before a test starts: identity hash on fresh DummyThread proxies, reported for every later test'),
+    'C19-4': ('C19', 'a test starts a thread it leaves running, then ends via skipTest: the snapshot is re-taken at the skip, the leak is never reported'),
+    'C19-5': ('C19', '--ignore-new-thread and a leaked thread whose name contains but does not start with the pattern: search instead of match'),
+    'C20-3': ('C20', 'a cross edge into a node still on the stack in a sibling subtree that already returned: depth used instead of a visit counter'),
+    'C20-4': ('C20', 'a node with >=2 edges to stacked ancestors processed far-then-near: low-link compared with dfs instead of low'),
+    'C20-5': ('C20', 'the graph described incrementally (several add_neighbors calls per node): a second call replaces the earlier neighbours'),
 }
 
 
